@@ -29,6 +29,9 @@ def patch_segment(segment: PlanarCurve):
     elif segment.degree == 2:
         vertices += list(segment.ctrlpoints[1:])
         commands += [Path.CURVE3] * 2
+    elif segment.degree == 3:
+        vertices += list(segment.ctrlpoints[1:])
+        commands += [Path.CURVE4] * 3
     return vertices, commands
 
 
